@@ -817,11 +817,11 @@ func c06(c *hx.Ctx) {
 	// fixed scenarios first: the ones the property text names
 	u0 := []lspec{{100, 1, 1, 2}, {100, 1, 1, 2}, {200, 2, 1, 3}, {100, 2, 1, 1}}
 	fixed := [][]act{
-		{{kind: 0, p: 0}, {kind: 0, p: 1}, {kind: 1, p: 0}},                    // replaced, then the old one is lost late
-		{{kind: 0, p: 0}, {kind: 0, p: 0}, {kind: 1, p: 0}},                    // duplicate report
-		{{kind: 0, p: 0}, {kind: 1, p: 0}, {kind: 1, p: 0}},                    // double loss
-		{{kind: 1, p: 0}, {kind: 0, p: 0}},                                      // loss before establish
-		{{kind: 0, p: 3}, {kind: 0, p: 0}, {kind: 1, p: 3}},                    // self-dial with the uuid of a later link
+		{{kind: 0, p: 0}, {kind: 0, p: 1}, {kind: 1, p: 0}}, // replaced, then the old one is lost late
+		{{kind: 0, p: 0}, {kind: 0, p: 0}, {kind: 1, p: 0}}, // duplicate report
+		{{kind: 0, p: 0}, {kind: 1, p: 0}, {kind: 1, p: 0}}, // double loss
+		{{kind: 1, p: 0}, {kind: 0, p: 0}},                  // loss before establish
+		{{kind: 0, p: 3}, {kind: 0, p: 0}, {kind: 1, p: 3}}, // self-dial with the uuid of a later link
 		{{kind: 0, p: 0}, {kind: 0, p: 2}, {kind: 0, p: 1}, {kind: 1, p: 1}, {kind: 1, p: 0}},
 		{{kind: 0, p: 0}, {kind: 0, p: 1}, {kind: 0, p: 0}, {kind: 1, p: 1}}, // ping-pong replacement
 	}
@@ -937,12 +937,12 @@ type memStream struct {
 	closed atomic.Bool
 }
 
-func (s *memStream) Read(b []byte) (int, error)        { return s.r.Read(b) }
-func (s *memStream) Write(b []byte) (int, error)       { return len(b), nil }
-func (s *memStream) SetReadDeadline(time.Time) error   { return nil }
-func (s *memStream) SetWriteDeadline(time.Time) error  { return nil }
-func (s *memStream) SetDeadline(time.Time) error       { return nil }
-func (s *memStream) Close() error                      { s.closed.Store(true); return nil }
+func (s *memStream) Read(b []byte) (int, error)       { return s.r.Read(b) }
+func (s *memStream) Write(b []byte) (int, error)      { return len(b), nil }
+func (s *memStream) SetReadDeadline(time.Time) error  { return nil }
+func (s *memStream) SetWriteDeadline(time.Time) error { return nil }
+func (s *memStream) SetDeadline(time.Time) error      { return nil }
+func (s *memStream) Close() error                     { s.closed.Store(true); return nil }
 
 type msHandler struct {
 	mtx  sync.Mutex
@@ -984,7 +984,20 @@ func c04(c *hx.Ctx) {
 		yielded := false
 		for i, o := range r.obs {
 			if h[i].kind == 2 {
-				c.Class(fmt.Sprintf("resolve-src%d", map[bool]int{true: 0, false: 1}[h[i].src == 0]+map[bool]int{true: 1, false: 0}[h[i].src > 1]))
+				switch {
+				case h[i].src == 0:
+					c.Class("request-src-empty")
+				case h[i].src == 1:
+					c.Class("request-src-controller-peer")
+				default:
+					c.Class("request-src-foreign")
+				}
+				switch {
+				case h[i].dst == 0:
+					c.Class("request-dst-empty")
+				case h[i].dst == 1:
+					c.Class("request-dst-local-peer")
+				}
 				if len(o) > 0 {
 					yielded = true
 				}
